@@ -320,8 +320,8 @@ MUTANTS += [
     dict(prop='C18', name='fibdemux-empty-table-rejected-again', edits=[(DEMUX, "        if self._fib is None:", "        if not self._fib:")]),
     dict(prop='C18', name='hub-includes-sender', edits=[(HUB, "            if endpoint.element_id == packet.src:\n                continue", "            if endpoint.element_id == packet.src and idx == 0:\n                continue")]),
     dict(prop='C18', name='hub-bypasses-port-device', edits=[(HUB, "            out = self.outs[idx]\n", "            out = self.outs[idx] if idx % 2 == 0 else self.endpoints[idx]\n")]),
-    dict(prop='C18', name='splitter-forwards-same-object-twice', edits=[(SPLIT, "            self.out2.put(copy(packet))", "            self.out2.put(packet)")]),
-    dict(prop='C18', name='nsplitter-shares-one-copy', edits=[(SPLIT, "        for out in self.outs[1:]:\n            if out:\n                out.put(copy(packet))", "        dup = copy(packet)\n        for out in self.outs[1:]:\n            if out:\n                out.put(dup)")]),
+    dict(prop='C18', name='splitter-forwards-same-object-twice', edits=[(SPLIT, "            self.out2.put(duplicate)", "            self.out2.put(packet)")]),
+    dict(prop='C18', name='nsplitter-shares-one-copy', edits=[(SPLIT, "        duplicates = [copy(packet) if out else None for out in self.outs[1:]]", "        duplicates = [copy(packet)] * len(self.outs[1:])")]),
     dict(prop='C18', name='fattree-core-agg-index-off', edits=[(FT, "aggr_node = n_core + (core_node // (k // 2)) + (k * pod)", "aggr_node = n_core + (core_node // (k // 2)) + (k * (pod if pod < 3 else pod - 1))")]),
     dict(prop='C18', name='fattree-reverse-entry-at-wrong-node', edits=[(FT, "                    self.topo.nodes[z][\"flow_to_nexthop\"][flow.fid + 10000] = a", "                    self.topo.nodes[z][\"flow_to_nexthop\"][flow.fid + 10000] = a\n                    if len(flow.path) > 5:\n                        self.topo.nodes[z][\"flow_to_port\"][flow.fid + 10000] = 0")]),
     dict(prop='C18', name='fattree-flow-may-loop-to-itself', edits=[(FT, "            src, dst = sample(sorted(self.hosts), 2)", "            src, dst = sample(sorted(self.hosts), 2)\n            if flow_id == 7:\n                dst = src")]),
